@@ -99,7 +99,11 @@ theorem scaled_rest {neg : Bool} {d : Nat} {k : Int} {rest : List Char} {v : Val
   unfold scaled at h
   split at h
   · simp at h
-  · simp only [Option.some.injEq, Prod.mk.injEq] at h; exact h.2.symm
+  · split at h
+    · simp only [Option.some.injEq, Prod.mk.injEq] at h; exact h.2.symm
+    · split at h
+      · simp only [Option.some.injEq, Prod.mk.injEq] at h; exact h.2.symm
+      · simp only [Option.some.injEq, Prod.mk.injEq] at h; exact h.2.symm
 
 /-- `double_` consumes at least one character -/
 theorem real_len {s : List Char} {v : Val} {r : List Char} (h : real s = some (v, r)) : r.length < s.length := by
